@@ -26,7 +26,7 @@ RULE = ('runs generated from the seed: a reference database world (3-25 genomes,
         '(plain + gzip files in different directories, pre-computed signature file); then 8-16 query commands with drawn batch (1-6 inputs, any order, repeats), '
         'channel (positional / list file + --ldir / signature file), format, strictness, -c, progress, reference chunk size, machine size, left-over OpenMP setting, '
         'pool completion policy and OpenMP hand-out. Each row is compared with the reference row of that genome (genome alone, positional, plain, no -c, no progress). '
-        'A case is (batch as multiset+order, channel, format, strict, cores, chunk regime, completion order, route); non-trivial = batch>=2 or cores>=2.')
+        'A case is (batch as multiset+order, channel, format, strict, cores, chunk regime, completion order, route); non-trivial = batch>=2 or cores>=2. Further drawn dimensions: one injected fault in a seventh of the commands (worker death, read error; fail-or-fully-correct oracle), failing commands as context, homonym files, symlinked inputs, multi-member gzip, extension-less and non-ASCII names, list files without --ldir, decoy working directory, tuning-knob defaults, rare batches of 520/640 inputs, integer ids from 0, python -O in every fourth run.')
 STATES_MEASURE = 'distinct OpenMP schedule signatures of whole commands'
 
 REAL = ['click command gambit query, argument handling, label derivation', 'database loading (SQLite through SQLAlchemy, HDF5 through h5py)',
